@@ -55,6 +55,8 @@ pub struct GenCfg {
     pub always_settle: bool,
     /// Rich, shuffled property sets and boundary lengths on inbound packets (C02).
     pub rich: bool,
+    /// Inbound PUBREL also with reason 0x92 and for identifiers never used (C08).
+    pub pubrel_variants: bool,
 }
 
 impl GenCfg {
@@ -105,6 +107,7 @@ impl GenCfg {
             ack_eagerness: rng.range(1, 6) as u32,
             always_settle: false,
             rich: false,
+            pubrel_variants: false,
         }
     }
 
@@ -465,14 +468,22 @@ impl<'a> Gen<'a> {
     }
 
     pub fn inbound_pubrel(&mut self) -> bool {
+        if self.cfg.pubrel_variants && self.rng.chance(1, 4) {
+            // a PUBREL the client has no record of: unknown identifier and/or failing reason
+            let id = self.rng.range(1, 65_535) as u16;
+            let reason = if self.rng.coin() { 0x92 } else { 0 };
+            let (props, form) = self.ack_extras(reason == 0);
+            self.broker(BrokerPkt::Pubrel { id: IdSpec::Raw(id), reason, props, form });
+            return true;
+        }
         if self.unreleased.is_empty() {
             return false;
         }
         let k = self.rng.usize_below(self.unreleased.len());
         let j = self.unreleased.remove(k);
-        // all re-deliveries of j share its identifier; forget them too
-        let (props, form) = self.ack_extras(true);
-        self.broker(BrokerPkt::Pubrel { id: IdSpec::SameAs(j), reason: 0, props, form });
+        let reason = if self.cfg.pubrel_variants && self.rng.chance(1, 4) { 0x92 } else { 0 };
+        let (props, form) = self.ack_extras(reason == 0);
+        self.broker(BrokerPkt::Pubrel { id: IdSpec::SameAs(j), reason, props, form });
         true
     }
 
@@ -501,7 +512,7 @@ impl<'a> Gen<'a> {
             if acks.is_empty() { 0 } else { self.cfg.ack_eagerness * 2 },                // 3 ack
             if pings_pending { 3 } else { 0 },                                           // 4 pingresp
             if self.cfg.inbound { 6 } else { 0 },                                        // 5 inbound publish
-            if self.cfg.inbound && !self.unreleased.is_empty() { 3 } else { 0 },         // 6 pubrel
+            if self.cfg.inbound && (!self.unreleased.is_empty() || self.cfg.pubrel_variants) { 3 } else { 0 }, // 6 pubrel
             if subs_ready.is_empty() { 0 } else { 4 },                                   // 7 open stream
             if held { 6 } else { 0 },                                                    // 8 deliver
             if self.cfg.writer_tweaks { 2 } else { 0 },                                  // 9 writer tweak
@@ -607,7 +618,11 @@ impl<'a> Gen<'a> {
                 self.pingresp_sent += 1;
                 self.broker(BrokerPkt::Pingresp);
             }
-            while self.cfg.inbound && self.inbound_pubrel() {}
+            let mut guard = 0;
+            while self.cfg.inbound && !self.unreleased.is_empty() && guard < 64 {
+                self.inbound_pubrel();
+                guard += 1;
+            }
         }
         self.flush();
     }
